@@ -84,7 +84,12 @@ DeepPos == <<
   \* become pointers to the named slice / map type
   Pos("optional-named-array", "opt", <<"refarr">>),       Pos("optional-named-map", "opt", <<"refmap">>),
   Pos("nullable-named-array", "null", <<"refarr">>),      Pos("nullable-named-map", "null", <<"refmap">>),
-  Pos("named-array", "req", <<"refarr">>),                Pos("named-map>map", "req", <<"map", "refmap">>)
+  Pos("named-array", "req", <<"refarr">>),                Pos("named-map>map", "req", <<"map", "refmap">>),
+  \* values that are optional scalars; structs behind an alias object; named scalar objects
+  Pos("map>nullable", "req", <<"nullable", "map">>),      Pos("array>nullable", "req", <<"nullable", "arr">>),
+  Pos("alias", "req", <<"alias">>),                       Pos("optional-alias", "opt", <<"alias">>),
+  Pos("array>alias", "req", <<"alias", "arr">>),          Pos("named-scalar", "req", <<"refscalar">>),
+  Pos("optional-named-scalar", "opt", <<"refscalar">>),   Pos("array>ref>optional-named-scalar", "req", <<"refscalar", "refopt", "arr">>)
 >>
 
 WT(t, defs) == [t |-> t, defs |-> defs]
@@ -99,6 +104,8 @@ Wrap(w, x, l) ==
     [] w = "refnull"  -> WT(TRef("C" \o s), <<Def("C" \o s, TStruct(<<FNull("c", x), F("d", TBool)>>))>>)
     [] w = "refarr"   -> WT(TRef("L" \o s), <<Def("L" \o s, TArr(x))>>)
     [] w = "refmap"   -> WT(TRef("M" \o s), <<Def("M" \o s, TMap(x))>>)
+    [] w = "alias"    -> WT(TRef("Al" \o s), <<Def("Al" \o s, TRef("C" \o s)), Def("C" \o s, TStruct(<<F("c", x), FOpt("o", TStr(-1, -1))>>))>>)
+    [] w = "refscalar" -> WT(TRef("S" \o s), <<Def("S" \o s, x)>>)
     [] w = "rec"      -> WT(TRef("N" \o s), <<Def("N" \o s, TStruct(<<F("c", x), FOpt("next", TRef("N" \o s))>>))>>)
     [] w = "union"    -> WT(TDUnion("kind", <<"A" \o s, "B" \o s>>),
                             <<Def("A" \o s, TStruct(<<F("kind", TConst(JStr("a"))), F("c", x)>>)),
@@ -155,6 +162,51 @@ FixedList == <<
     Child,
     Def("A", TStruct(<<F("kind", TConst(JStr("a"))), F("x", TInt("int64", NoB, NoB))>>)),
     Def("B", TStruct(<<F("kind", TConst(JStr("b"))), F("y", TStr(-1, -1))>>))>>, TRUE),
+  \* more of C13's territory: maps / arrays whose values are optional scalars or optional enum references, structs reached
+  \* through an ALIAS object (a definition that is itself a reference), NAMED scalar objects behind optional fields
+  Fixed("equality-2", <<
+    Def("Root", TStruct(<<
+      F("mos", TMap(TNullable(TStr(-1, -1)))), F("moi", TMap(TNullable(TInt("int64", NoB, NoB)))),
+      FOpt("moe", TMap(TNullable(TRef("Level")))), F("aos", TArr(TNullable(TStr(-1, -1)))),
+      F("anchor", TRef("Anchor")), FOpt("fallback", TRef("Anchor")), F("guides", TArr(TRef("Anchor"))),
+      F("owner", TRef("Uid")), FOpt("datasource", TRef("Uid")), FOpt("weight", TRef("Weight")),
+      F("rows", TArr(TRef("Row")))>>)),
+    Def("Level", TEnum(<<"a", "b">>)),
+    Def("Anchor", TRef("Position")),
+    Def("Position", TStruct(<<F("x", TInt("int64", NoB, NoB)), FOpt("unit", TStr(-1, -1))>>)),
+    Def("Uid", TStr(-1, -1)), Def("Weight", TNum("float64", NoB, NoB)),
+    Def("Row", TStruct(<<F("id", TRef("Uid")), FOpt("ds", TRef("Uid")), FOpt("at", TRef("Anchor"))>>))>>, FALSE),
+  \* required fields whose default is the ZERO value of their type: their absence is still not a rejection cause (C08)
+  Fixed("falsy-defaults", <<
+    Def("Root", TStruct(<<
+      FDef("s", TStr(-1, -1), JStr("")), FDef("b", TBool, JBool(FALSE)), FDef("i", TInt("int64", NoB, NoB), JInt(0)),
+      FDef("n", TNum("float64", NoB, NoB), JNum(0)), FDef("a", TArr(TStr(-1, -1)), JArr(<<>>)),
+      F("plain", TStr(-1, -1))>>))>>, FALSE),
+  \* one union of three branches including null, used several times: as nullable fields, as array item, as map value (C01)
+  Fixed("reused-nullable-union", <<
+    Def("Root", TStruct(<<
+      FNull("first", TUnion(<<TStr(-1, -1), TBool>>)), FNull("second", TUnion(<<TStr(-1, -1), TBool>>)),
+      FOptNull("third", TUnion(<<TStr(-1, -1), TBool>>)),
+      F("items", TArr(TNullable(TUnion(<<TStr(-1, -1), TBool>>)))), F("m", TMap(TNullable(TUnion(<<TStr(-1, -1), TBool>>))))>>))>>, FALSE),
+  \* declared properties that differ only by letter case, one required and one optional (C01)
+  Fixed("case-twins", <<
+    Def("Root", TStruct(<<
+      F("userID", TStr(1, -1)), FOpt("userId", TStr(1, -1)), FOpt("name", TStr(-1, -1))>>))>>, TRUE),
+  \* TWO packages (definitions named "x.Name" live in a second input file / Go package): named collections with the SAME
+  \* bare name in both, the foreign unconstrained one first in field order, plus a foreign struct
+  Fixed("two-packages", <<
+    Def("Root", TStruct(<<
+      F("a", TRef("x.Coll")), F("b", TRef("Coll")), F("c", TRef("x.List")), F("d", TRef("List")),
+      FOpt("e", TRef("x.Child")), FOpt("f", TArr(TRef("x.Child")))>>)),
+    Def("Coll", TMap(TStr(1, -1))), Def("List", TArr(TInt("int64", Ge(0), NoB))),
+    Def("x.Coll", TMap(TStr(-1, -1))), Def("x.List", TArr(TInt("int64", NoB, NoB))),
+    Def("x.Child", TStruct(<<F("cid", TInt("int64", Ge(1), NoB)), FOpt("tags", TRef("x.Coll"))>>))>>, TRUE),
+  \* control: the constrained own collection first
+  Fixed("two-packages-reversed", <<
+    Def("Root", TStruct(<<
+      F("a", TRef("Coll")), F("b", TRef("x.Coll")), F("c", TRef("List")), F("d", TRef("x.List"))>>)),
+    Def("Coll", TMap(TStr(1, -1))), Def("List", TArr(TInt("int64", Ge(0), NoB))),
+    Def("x.Coll", TMap(TStr(-1, -1))), Def("x.List", TArr(TInt("int64", NoB, NoB)))>>, TRUE),
   \* a tree: recursion through an array and through an optional reference
   Fixed("tree", <<
     Def("Root", TStruct(<<F("root", TRef("Node"))>>)),
